@@ -513,7 +513,7 @@ pub fn run(tier: Tier, seed: u64, replay: Option<&std::path::Path>) -> i32 {
         }
     }
     let cases = match tier {
-        Tier::Quick => 800,
+        Tier::Quick => 2400,
         Tier::Thorough => 10_000,
     };
     let out = run_sharded("C03", seed, cases, 150, strategy, run_case);
